@@ -986,6 +986,10 @@ func (te *TemplateEngine) cloneSDT(source *SDT) *SDT {
 	if source.Properties != nil {
 		props := *source.Properties
 		props.RunPr = te.cloneRunProperties(source.Properties.RunPr)
+		if props.Tag != nil {
+			tag := *props.Tag
+			props.Tag = &tag
+		}
 		if props.ID != nil {
 			id := *props.ID
 			props.ID = &id
